@@ -149,7 +149,9 @@ func (f *Frame) appendOp(x *ssa.Call, c *ssa.CallCommon, at string, st *State) *
 		vc.assume(at, implies(inplace, fmt.Sprintf("(forall ((%s Int)) (! (=> (or (< %s (+ (s_off %s) %s)) (>= %s (+ (s_off %s) %s))) (= (select %s %s) (select %s %s))) :pattern ((select %s %s))))",
 			j, j, s, n, j, s, total, inner, j, oldInner, j, inner, j)), "append: in place leaves the rest of the array alone")
 	}
-	if _, loopCarried := c.Args[0].(*ssa.Phi); loopCarried && os.Getenv("GOVC_NO_IDXPREFIX") == "" && !isByteSlice(c.Args[0].Type()) {
+	_, loopCarried := c.Args[0].(*ssa.Phi)
+	_, viaPointer := c.Args[0].(*ssa.UnOp) // *p = append(*p, x): the postcondition of the enclosing function talks about (*p)[k]
+	if (loopCarried || viaPointer) && os.Getenv("GOVC_NO_IDXPREFIX") == "" && !isByteSlice(c.Args[0].Type()) {
 		// (only for x = append(x, ...) on a loop-carried x: that is where invariants of
 		// the form "forall k :: x[k] ..." have to be carried across the append; stated
 		// everywhere it multiplies instantiations for no benefit)
